@@ -27,6 +27,10 @@ literal texts the model mirrors.  Obligations: lean/SaModel/Props/ConstGen*.lean
 Generated/ArithSites.lean (C16): see arith_sites.py — every operator, cast, index, unwrap / expect, panicking std method and
 panicking macro of the non-test sources, each classified in translator/arith_sites.json (`model:` / `range:` / `test-only` /
 `OPEN`); an unclassified or vanished site is refused.  Obligation: lean/SaModel/Props/C16Gen.lean (`gen_arith_sites`).
+Generated/Takes.lean (C10): see takes.py — for every builder struct, every `impl ArrayExt` and the top-level `ArrayBuilder`: how `new`
+initialises each field and what the reset method (`take` / `take_self` / `take_records` / `build_arrays`) leaves in it.  Obligation:
+lean/SaModel/Props/C10Gen.lean (`gen_takes`: what `take` leaves is what `new` creates; `gen_takes_model`: the kinds are those of the
+model's `takeRest`).
 What each parser recognises and refuses: notes/translator.md.
 """
 import os
@@ -40,6 +44,7 @@ import coerce_arms  # noqa: E402
 import type_names  # noqa: E402
 import adapter_bodies  # noqa: E402
 import constants  # noqa: E402
+import takes  # noqa: E402  Generated/Takes.lean (C10; C01 C03 C16 C18): new / take of every builder, field by field (translator/takes.py)
 import arith_sites  # noqa: E402  Generated/ArithSites.lean (C16): the inventory of unwind / overflow sites vs translator/arith_sites.json
 
 ROOT = os.path.dirname(os.path.dirname(os.path.abspath(__file__)))
@@ -307,7 +312,7 @@ GENERATORS = [
     ("AdapterBodies", ["C19"], adapter_bodies.render),
     ("CoerceArms", ["C07"], coerce_arms.render),
     ("TypeNames", ["C09"], type_names.render),
-] + constants.GENERATORS + arith_sites.GENERATORS
+] + constants.GENERATORS + arith_sites.GENERATORS + takes.GENERATORS
 
 
 # generators whose refusal is reported as a NOTE only (the arithmetic / indexing site inventory: `translator/arith_sites.py`)
